@@ -238,7 +238,22 @@ def gen_case(g):
     h.ops.append({"k": "obs", "what": "saved"})
     h.ops.append({"k": "battery", "spec": BATTERY})
     h.ops += [gen.req(99990, "shutdown"), gen.note("exit")]
-    A = {"argv": argv, "tree": tree, "ops": h.ops, "sync_kind": 2 if incremental else 1,
+    # D.race: some of the client's disk writes land *inside* the handler of the preceding
+    # message instead of between two messages (client and server are independent processes)
+    faults = []
+    if rng.random() < 0.4:
+        k = 1
+        while k < len(h.ops):
+            op, prev = h.ops[k], h.ops[k - 1]
+            if op["k"] == "env" and op["do"] == "write" and prev["k"] == "msg" and prev["m"].get("method") in (
+                    "textDocument/didOpen", "textDocument/didSave", "textDocument/didClose",
+                    "textDocument/didChange") and rng.random() < 0.3:
+                faults.append({"op": k - 1, "seam": rng.choice(["open", "isfile"]), "nth": rng.randint(0, 2),
+                               "kind": "race", "env": [op]})
+                del h.ops[k]
+                continue
+            k += 1
+    A = {"argv": argv, "tree": tree, "ops": h.ops, "sync_kind": 2 if incremental else 1, "faults": faults,
          "strict_edits": True, "require_open": True, "pipeline": False, "want_transcript": True,
          "want_final": True,
          "chunks": rng.choice([None, None, [512], [4096, 7]]),
